@@ -71,7 +71,13 @@ Lcm(a, b) == (a * b) \div Gcd(a, b)
 RECURSIVE SumSeq(_)
 SumSeq(s) == IF s = <<>> THEN 0 ELSE Head(s) + SumSeq(Tail(s))
 
-Reverse(s) == [i \in 1..Len(s) |-> s[Len(s) + 1 - i]]
+\* TLC evaluates [i \in 1..n |-> e] lazily (e is re-evaluated at every application); Tup builds
+\* the explicit tuple once.
+RECURSIVE TupTo(_, _)
+TupTo(f, n) == IF n = 0 THEN <<>> ELSE Append(TupTo(f, n - 1), f[n])
+Tup(f) == TupTo(f, Len(f))
+
+Reverse(s) == Tup([i \in 1..Len(s) |-> s[Len(s) + 1 - i]])
 
 \* ---------------------------------------------------------------- allotments (C24)
 \* A portion is P(num, den) with 0 <= num <= den, or PRem.
@@ -92,43 +98,42 @@ ValidAllot(ps) ==
 
 \* numerators over the common denominator, `remaining` resolved
 ResolvedNums(ps) ==
-    LET D == CommonDen(ps) IN
-    [i \in 1..Len(ps) |-> IF ps[i].num = -1 THEN D - KnownSum(ps, D) ELSE NumOver(ps[i], D)]
-
-Floors(ps, amt) ==
     LET D == CommonDen(ps)
-        nums == ResolvedNums(ps)
-    IN [i \in 1..Len(ps) |-> (amt * nums[i]) \div D]
+        known == KnownSum(ps, D)
+    IN Tup([i \in 1..Len(ps) |-> IF ps[i].num = -1 THEN D - known ELSE NumOver(ps[i], D)])
+
+\* D: common denominator, nums: numerators over D (precomputed once per portion vector)
+FloorsWith(D, nums, amt) == Tup([i \in 1..Len(nums) |-> (amt * nums[i]) \div D])
+Floors(ps, amt) == FloorsWith(CommonDen(ps), ResolvedNums(ps), amt)
 
 \* machine.Allotment.Allocate: floor per part, then +1 to the parts in order while the total is short
-Allocate(ps, amt) ==
-    LET fl == Floors(ps, amt)
-        left == amt - SumSeq(fl)
-    IN [i \in 1..Len(ps) |-> fl[i] + (IF i <= left THEN 1 ELSE 0)]
+AllocateFrom(fl, amt) ==
+    LET left == amt - SumSeq(fl)
+    IN Tup([i \in 1..Len(fl) |-> fl[i] + (IF i <= left THEN 1 ELSE 0)])
+AllocateWith(D, nums, amt) == AllocateFrom(FloorsWith(D, nums, amt), amt)
+Allocate(ps, amt) == AllocateWith(CommonDen(ps), ResolvedNums(ps), amt)
 
-\* theorems of C24 on one (portions, amount)
-ThmAllocSum(ps, amt)   == SumSeq(Allocate(ps, amt)) = amt
-ThmAllocFloor(ps, amt) ==
-    LET fl == Floors(ps, amt)
-        al == Allocate(ps, amt)
-    IN \A i \in 1..Len(ps) : al[i] \in {fl[i], fl[i] + 1}
-ThmAllocEarliest(ps, amt) ==      \* the +1's form a prefix
-    LET fl == Floors(ps, amt)
-        al == Allocate(ps, amt)
-    IN \A i \in 1..Len(ps) : \A j \in 1..Len(ps) : (i < j /\ al[j] = fl[j] + 1) => al[i] = fl[i] + 1
-\* exact rational floor: fl[i] <= amt*p_i < fl[i]+1
-ThmFloorExact(ps, amt) ==
-    LET D == CommonDen(ps)
-        nums == ResolvedNums(ps)
-        fl == Floors(ps, amt)
-    IN \A i \in 1..Len(ps) : fl[i] * D <= amt * nums[i] /\ amt * nums[i] < (fl[i] + 1) * D
+\* theorems of C24 on one (portions, amount); fl = floors, al = allocated parts
+ThmAllocSum(al, amt)   == SumSeq(al) = amt
+ThmAllocFloor(fl, al)  == \A i \in 1..Len(al) : al[i] \in {fl[i], fl[i] + 1}
+ThmAllocEarliest(fl, al) ==      \* the +1's form a prefix: leftover units go to the earliest parts
+    \A i \in 1..Len(al) : \A j \in 1..Len(al) : (i < j /\ al[j] = fl[j] + 1) => al[i] = fl[i] + 1
+\* fl is the exact rational floor: fl[i] <= amt * p_i < fl[i] + 1
+ThmFloorExact(D, nums, fl, amt) ==
+    \A i \in 1..Len(fl) : fl[i] * D <= amt * nums[i] /\ amt * nums[i] < (fl[i] + 1) * D
 \* scaling lemma used to reach amounts beyond TLC's integers:
 \*   Allocate(ps, m*D + r) = m * nums + Allocate(ps, r)     (D = common denominator)
-ThmAllocScale(ps, m, r) ==
+ThmAllocScale(D, nums, al, m, r) ==
+    AllocateWith(D, nums, m * D + r) = Tup([i \in 1..Len(nums) |-> m * nums[i] + al[i]])
+\* all of them
+ThmAllocAll(ps, amt) ==
     LET D == CommonDen(ps)
         nums == ResolvedNums(ps)
-        small == Allocate(ps, r)
-    IN Allocate(ps, m * D + r) = [i \in 1..Len(ps) |-> m * nums[i] + small[i]]
+        fl == FloorsWith(D, nums, amt)
+        al == AllocateFrom(fl, amt)
+    IN /\ ThmAllocSum(al, amt) /\ ThmAllocFloor(fl, al) /\ ThmAllocEarliest(fl, al)
+       /\ ThmFloorExact(D, nums, fl, amt)
+       /\ \A m \in 1..3 : ThmAllocScale(D, nums, al, m, amt)
 
 \* enumeration of portion vectors: all vectors of k portions (0 allowed) with common denominator
 \* den summing to 100 %, written in lowest terms, and their variants with one positive part
@@ -241,7 +246,7 @@ SrcAllotLoop(src, parts, i, as, bal, tr, fs) ==
             ELSE SrcAllotLoop(src, parts, i + 1, as, t.bal, tr, fs \o <<t.f>>)
 
 \* ---------------------------------------------------------------- destinations (compiler/destination.go + vm)
-Postings(f, d, as) == [i \in 1..Len(f) |-> [s |-> f[i].a, d |-> d, as |-> as, n |-> f[i].n]]
+Postings(f, d, as) == Tup([i \in 1..Len(f) |-> [s |-> f[i].a, d |-> d, as |-> as, n |-> f[i].n]])
 
 RECURSIVE EvalDst(_, _, _, _, _)
 RECURSIVE DstSeqLoop(_, _, _, _, _, _, _)
